@@ -208,11 +208,19 @@ class CouplingSimulation:
                 value = grid.left_point(position)
         return value
 
-    def coupling_states_for_a_slice(self, slice_fine_states):
-        """Apply the coupling for an array of states of the fine process"""
+    def coupling_states_for_a_slice(self, slice_fine_states, initial_value=None):
+        """Apply the coupling for an array of states of the fine process
+
+        :param slice_fine_states: increments of the fine process
+        :param initial_value: value of the coarse process before these increments (the origin by default)
+        """
         if len(slice_fine_states):
             slice_coupling_values = np.empty(shape=len(slice_fine_states), dtype=float)
-            current_value = self.coupling_process.grid.origin
+            current_value = (
+                self.coupling_process.grid.origin
+                if initial_value is None
+                else initial_value
+            )
             for k, deltaFineState in enumerate(slice_fine_states):
                 current_value += self.coupling_state(deltaFineState)
                 slice_coupling_values[k] = current_value
@@ -246,15 +254,20 @@ class CouplingSimulationFixedTimes(CouplingSimulation):
         fines_states_values = np.zeros(shape=len(fine_states_increments))
         coarse_states_values = np.zeros_like(fines_states_values)
 
+        # the values at each date are the running sums of the jumps of all the past intervals
         for k, (slice_fine_states, slice_fine_values) in enumerate(
             zip(fine_states_increments, fines_states_all_values)
         ):
             if len(slice_fine_states):
                 slice_coarse_values = self.coupling_states_for_a_slice(
-                    slice_fine_states
+                    slice_fine_states,
+                    initial_value=coarse_states_values[k - 1] if k > 0 else None,
                 )
                 fines_states_values[k] = slice_fine_values[-1]
                 coarse_states_values[k] = slice_coarse_values[-1]
+            elif k > 0:
+                fines_states_values[k] = fines_states_values[k - 1]
+                coarse_states_values[k] = coarse_states_values[k - 1]
 
         return fines_states_values, coarse_states_values
 
@@ -309,16 +322,20 @@ class CouplingSimulationWithJumpTimes(CouplingSimulation):
         fine_states_all_values = fine_mc.values
         jump_times = fine_mc.times
 
-        coarse_states_all_values = np.empty_like(fine_states_all_values)
+        coarse_states_all_values = [
+            np.empty(shape=0, dtype=float) for _ in fine_states_all_values
+        ]
 
+        current_coarse_value = None  # running value of the coarse process over the past intervals
         for k, (slice_fine_states, slice_fine_values) in enumerate(
             zip(fine_states_increments, fine_states_all_values)
         ):
             if len(slice_fine_states):
                 slice_coarse_values = self.coupling_states_for_a_slice(
-                    slice_fine_states
+                    slice_fine_states, initial_value=current_coarse_value
                 )
                 coarse_states_all_values[k] = slice_coarse_values
+                current_coarse_value = slice_coarse_values[-1]
 
         fine_values = np.concatenate(fine_states_all_values).ravel().astype(float)
         coarse_values = np.concatenate(coarse_states_all_values).ravel().astype(float)
